@@ -464,6 +464,35 @@ contract(
 )
 
 
+def _anchor_cases(rng, n):
+    from vcheck.hooks import c10 as h
+
+    out = []
+    k = 0
+    while len(out) < n:
+        case = h.gen_case(rng, k)
+        k += 1
+        for g, an in (("A", "top"), ("o", "top"), ("acutecomb", "_top"), ("ghost", "top"), ("A", "bottom"), ("T", "top")):
+            out.append({"case": case, "glyph": g, "anchor": an})
+    return out[:n]
+
+
+def _anchor_build(d):
+    from types import SimpleNamespace
+
+    from ufo2ft.featureWriters.markFeatureWriter import MarkFeatureWriter
+    from vcheck.hooks import c10 as h
+
+    w = MarkFeatureWriter()
+    w.context = SimpleNamespace(isVariable=True, font=h.build_designspace(d["case"]))
+    return {"self": w, "glyphName": d["glyph"], "anchorName": d["anchor"]}
+
+
+CONTRACTS["ufo2ft.featureWriters.baseFeatureWriter:BaseFeatureWriter._getAnchor#variable"].runtime = Runtime(
+    _anchor_cases, _anchor_build, call=lambda fn, a: fn(a["self"], a["glyphName"], a["anchorName"])
+)
+
+
 @specfn(INT, x=REAL)
 def k10_round(x):
     """otRound: the nearest integer, halves upwards"""
